@@ -28,6 +28,7 @@ Reqs == { r \in [m : Methods, ver : {10, 11}, copt : {"none", "close", "ka"}, bo
 \* what the origin sends back
 Ups == { u \in [st : {200, 201, 204, 304, 404, 500, 503, 299}, fr : {"cl", "chunked", "eof"}, tr : BOOLEAN, gz : BOOLEAN,
                 sse : BOOLEAN, sz : 1..3, hop : BOOLEAN, cookies : BOOLEAN, ver : {10, 11},
+                pragma : BOOLEAN,      \* "Pragma: no-cache" and "Expires", no Cache-Control: the HTTP/1.0 way of saying "do not cache"
                 early : BOOLEAN,       \* the origin answers and hangs up without reading the request body
                 ev : {"lf", "crlf", "cr", "comment", "param"}] :   \* event streams: line ending of the events; "comment" = the first thing
                                                            \* sent is a comment line (a heartbeat) in a chunk of its own, no blank line;
@@ -45,7 +46,8 @@ Ups == { u \in [st : {200, 201, 204, 304, 404, 500, 503, 299}, fr : {"cl", "chun
             \* a 304 may announce the framing the 200 would have had (RFC 7230 3.3.1: Transfer-Encoding on a 304 carries no
             \* body); a 204 may not
             /\ (u.st \in {204, 304} => u.sz = 1 /\ ~u.gz /\ ~u.sse /\ ~u.tr /\ u.fr \in (IF u.st = 304 THEN {"cl", "chunked"} ELSE {"cl"}))
-            /\ (u.st \in {201, 500, 503, 299} => ~u.cookies /\ ~u.hop) }
+            /\ (u.st \in {201, 500, 503, 299} => ~u.cookies /\ ~u.hop)
+            /\ (u.pragma => u.st = 200 /\ u.sz = 1 /\ ~u.sse /\ ~u.gz /\ ~u.tr /\ ~u.early /\ ~u.hop /\ ~u.cookies /\ u.ver = 11) }
 
 ReqClose(r) == r.copt = "close" \/ (r.ver = 10 /\ r.copt # "ka")       \* http.ReadRequest
 HeaderOnly(r, u) == r.m = "HEAD" \/ u.st \in {204, 304}                 \* flush.go isHeaderOnlySpec
@@ -119,8 +121,10 @@ Exch == Reqs \X Ups
 \* media type parameter x framing x origin version) is always run on its own, asked for by a plain GET of either version
 PlainGet(v) == [m |-> "GET", ver |-> v, copt |-> "none", body |-> "none", sz |-> 1, ae |-> "absent", slow |-> FALSE, refused |-> FALSE]
 StreamBase == { <<PlainGet(v), u>> : v \in {10, 11},
-                u \in {x \in Ups : x.sse /\ x.st = 200 /\ x.sz = 2 /\ ~x.gz /\ ~x.tr /\ ~x.hop /\ ~x.cookies /\ ~x.early} }
-GenSeqs == RandomSubset(SeqSample, [1..MaxEx -> Exch]) \cup { [i \in 1..1 |-> e] : e \in StreamBase }
+                u \in {x \in Ups : x.sse /\ x.st = 200 /\ x.sz = 2 /\ ~x.gz /\ ~x.tr /\ ~x.hop /\ ~x.cookies /\ ~x.early /\ ~x.pragma} }
+\* the same for the header set as a whole: a reply that carries Pragma, asked for by GET and by HEAD
+PragmaBase == { <<[PlainGet(11) EXCEPT !.m = m], u>> : m \in {"GET", "HEAD"}, u \in {x \in Ups : x.pragma} }
+GenSeqs == RandomSubset(SeqSample, [1..MaxEx -> Exch]) \cup { [i \in 1..1 |-> e] : e \in StreamBase \cup PragmaBase }
 \* an exchange happens only if every earlier one left the connection open
 Expected(s) == [i \in 1..Len(s) |-> Wire(s[i][1], s[i][2], FALSE)]
 GInit == /\ \E s \in GenSeqs :
